@@ -645,12 +645,15 @@ LEVEL_TEXT = ('Theorems (Props/C06.v, all closed under the global context) over 
               'C06_missing_right_copied, C06_never_exposes_nonfinite, C06_spec_cell_exact); mask(): exact masking, untouched unmasked '
               'values, monotone masks for all predicate combinations, integer and floating variables (C06_mask_exact_no_where, '
               'C06_mask_exact_where, C06_mask_keeps_unmasked, C06_mask_monotone, C06_mask_skips_coords) and whole-call equality for every '
-              'input incl. dims= as a list (C06_mask_correct, full strength). No _partial/_refuted theorem is left: the four defects '
-              'found (masked operand unmasked, x/0 not masked on masked-typed variables, dims list ignored, integer values= unmasking) are '
+              'input incl. dims= as a list (C06_mask_correct, full strength). For pncbo and mask() no _partial/_refuted theorem is left: the four defects '
+              'found earlier (masked operand unmasked, x/0 not masked on masked-typed variables, dims list ignored, integer values= unmasking) are '
               'repaired (known_findings fixed:) and their inputs are corpus cases. eval(): assignment statements over names, constants, unary '
               'minus and + - * / create variables equal to the sequential cellwise evaluation on the file\'s arrays, other variables are '
               'identical copies of the base file (C06_eval_creates_expr, C06_eval_single, C06_eval_copyall_untouched, '
-              'C06_eval_binop_cellwise, C06_eval_cell_mask; Model/EvalExpr.v); other expression forms: Python oracle only. '
+              'C06_eval_binop_cellwise, C06_eval_cell_mask; Model/EvalExpr.v, also np.ma.masked_less/greater calls); the library evaluates by '
+              'masked-array semantics whenever the statements contain no np.ma.* call (C06_eval_masked_semantics_partial); with one, a plain '
+              'variable on the left of the bare numpy masked array drops the mask (C06_eval_plain_left_drops_mask_refuted = known finding, '
+              'numpy __array_priority__ dispatch); other expression forms: Python oracle only. '
               'Tie T: operator table, pncbo statements and the mask() chain regenerated into Gen/C06Src.v every run (C06_source_is_model). '
               'Tie H: library vs model on every generated bin/mask case and on the modelled eval cases.')
 LEVEL_NOTE = ('Trusted: Coq kernel + vm_compute; the harness; numpy elementwise results are model inputs (the model decides mask placement); '
